@@ -9,7 +9,11 @@ use std::sync::atomic::{AtomicBool, AtomicU64, Ordering};
 use std::sync::Mutex;
 use std::time::{Duration, Instant};
 
-pub const VERIF_DIR: &str = "/verif";
+/// Directory that holds known_findings.json and receives evidence/, replays/ and .work/
+/// (default /verif; the env override lets a background snapshot run write into its own copy).
+pub fn verif_dir() -> PathBuf {
+    PathBuf::from(std::env::var("VERIF_DIR").unwrap_or_else(|_| "/verif".to_string()))
+}
 pub const WORKERS: usize = 16;
 
 #[derive(Clone, Copy, PartialEq, Eq, Debug)]
@@ -64,7 +68,7 @@ impl Ctx {
             .and_then(|s| s.parse().ok())
             .unwrap_or(1.0);
         // stale replay files of an earlier run with the same id / tier / seed would be misleading
-        if let Ok(rd) = std::fs::read_dir(PathBuf::from(VERIF_DIR).join("replays").join(id)) {
+        if let Ok(rd) = std::fs::read_dir(verif_dir().join("replays").join(id)) {
             let prefix = format!("{}-{}-", tier.name(), seed);
             for e in rd.flatten() {
                 if e.file_name().to_string_lossy().starts_with(&prefix) {
@@ -204,7 +208,7 @@ impl Ctx {
             "wall_s": (wall * 1000.0).round() / 1000.0,
             "violations": nviol,
         });
-        let evdir = PathBuf::from(VERIF_DIR).join("evidence");
+        let evdir = verif_dir().join("evidence");
         let _ = std::fs::create_dir_all(&evdir);
         let evpath = evdir.join(format!("{}.json", self.id));
         if let Err(e) = std::fs::write(&evpath, serde_json::to_string_pretty(&ev).unwrap()) {
@@ -258,7 +262,7 @@ impl Ctx {
 
 fn write_replays(id: &str, tier: Tier, seed: u64, violations: &[Value]) -> Vec<(PathBuf, String)> {
     let mut replay_paths = vec![];
-    let dir = PathBuf::from(VERIF_DIR).join("replays").join(id);
+    let dir = verif_dir().join("replays").join(id);
     let _ = std::fs::create_dir_all(&dir);
     for (i, v) in violations.iter().enumerate() {
         let path = dir.join(format!("{}-{}-{}.json", tier.name(), seed, i));
@@ -286,7 +290,7 @@ pub struct KnownFindings {
 
 impl KnownFindings {
     pub fn load(prop: &str) -> Self {
-        let path = PathBuf::from(VERIF_DIR).join("known_findings.json");
+        let path = verif_dir().join("known_findings.json");
         let Ok(text) = std::fs::read_to_string(&path) else {
             return KnownFindings::default();
         };
